@@ -102,39 +102,64 @@ def main():
             os.remove(f)
         sh("git checkout dnsrocks/go.mod", wt)
         if not skip_suite:
+            # the packages whose tests can be affected: those that (transitively) import a touched package
+            patch = open(os.path.join(seed, "patch.diff")).read()
+            touched = set()
+            for m in re.finditer(r"^\+\+\+ b/(dnsrocks/[^\n]+)$", patch, re.M):
+                d = os.path.dirname(m.group(1))
+                if d.startswith("dnsrocks/go-cdb-mods"):
+                    touched.add("github.com/repustate/go-cdb" + d[len("dnsrocks/go-cdb-mods"):])
+                else:
+                    touched.add("github.com/facebookincubator/dns/" + d)
+            rc, out = sh("go list -f '{{.ImportPath}}|{{join .Deps \",\"}}|{{join .TestImports \",\"}}|{{join .XTestImports \",\"}}' ./... 2>/dev/null", os.path.join(wt, "dnsrocks"), env=env)
+            affected = []
+            for line in out.splitlines():
+                parts = line.split("|")
+                if len(parts) < 4:
+                    continue
+                deps = set(parts[1].split(",")) | set(parts[2].split(",")) | set(parts[3].split(",")) | {parts[0]}
+                if deps & touched:
+                    affected.append(parts[0])
+            # test-only imports of affected packages count as well (one more round)
+            aff = set(affected)
+            for line in out.splitlines():
+                parts = line.split("|")
+                if len(parts) >= 4 and (set(parts[2].split(",")) | set(parts[3].split(","))) & aff:
+                    aff.add(parts[0])
+            affected = sorted(aff)
+            res["suite_packages"] = affected
             ok = True
             log = ""
-            rc, out = sh("go test -vet=off -count=1 ./... 2>&1 | grep -v 'no test files' | grep -v 'recvmsg' | grep -v '^# '", os.path.join(wt, "dnsrocks"), timeout=2400, env=env)
-            fails = [l for l in out.splitlines() if l.startswith("FAIL") or l.startswith("--- FAIL") or l.startswith("panic:")]
-            # packages that cannot link in the baseline report "[build failed]"; ignore those lines
-            fails = [l for l in fails if "[build failed]" not in l and l.strip() != "FAIL"]
-            log += out[-1500:]
-            if fails:
-                ok = False
-            # dnsserver: TestFBDNSDBBadPathDontWrite leaves a periodic reloader on a handler without
-            # database, which panics 10 s later if the test binary is still running (a flake of the
-            # unchanged tree on a loaded machine): run that test on its own and the rest without it
-            others = [p for p in LINK_PKGS if "dnsserver" not in p]
             f2 = []
-            for cmdline in ["go test -ldflags=-checklinkname=0 -vet=off -count=1 " + " ".join(others),
-                            "go test -ldflags=-checklinkname=0 -vet=off -count=1 -skip 'TestFBDNSDBBadPathDontWrite' ./dnsserver/...",
-                            "go test -ldflags=-checklinkname=0 -vet=off -count=1 -run '^TestFBDNSDBBadPathDontWrite$' ./dnsserver/"]:
+            rest = [p for p in affected if not p.endswith("/dnsserver")]
+            cmds = []
+            if rest:
+                cmds.append("go test -ldflags=-checklinkname=0 -vet=off -count=1 " + " ".join(rest))
+            if any(p.endswith("/dnsserver") for p in affected):
+                # TestFBDNSDBBadPathDontWrite leaves a periodic reloader on a handler without database, which
+                # panics 10 s later if the test binary is still running (a flake of the unchanged tree on a
+                # loaded machine): run that test on its own and the rest without it
+                cmds.append("go test -ldflags=-checklinkname=0 -vet=off -count=1 -skip 'TestFBDNSDBBadPathDontWrite' ./dnsserver/")
+                cmds.append("go test -ldflags=-checklinkname=0 -vet=off -count=1 -run '^TestFBDNSDBBadPathDontWrite$' ./dnsserver/")
+            for cmdline in cmds:
                 for attempt in range(3):
-                    rc, out = sh(cmdline + " 2>&1 | grep -v 'no test files'", os.path.join(wt, "dnsrocks"), timeout=2400, env=env)
-                    bad = [l for l in out.splitlines() if l.startswith("FAIL") or l.startswith("--- FAIL") or l.startswith("panic:")]
-                    timing = "TestReloadFullTimeout" in out or "TestReloadPartialTimeout" in out
+                    rc, out2 = sh(cmdline + " 2>&1 | grep -v 'no test files'", os.path.join(wt, "dnsrocks"), timeout=2400, env=env)
+                    bad = [l for l in out2.splitlines() if l.startswith("FAIL") or l.startswith("--- FAIL") or l.startswith("panic:")]
+                    timing = "TestReloadFullTimeout" in out2 or "TestReloadPartialTimeout" in out2
                     if not bad or not timing:
                         break
-                log += "\n" + out[-1200:]
+                log += "\n$ " + cmdline + "\n" + out2[-1000:]
                 f2 += bad
+            if any("go-cdb" in t for t in touched):
+                rc, out2 = sh("go test -count=1 ./... 2>&1 | grep -v 'no test files'", os.path.join(wt, "dnsrocks", "go-cdb-mods"), timeout=600, env=env)
+                log += "\n" + out2[-600:]
+                if "FAIL" in out2:
+                    f2.append("go-cdb-mods")
             if f2:
                 ok = False
-            rc, out = sh("go test -count=1 ./... 2>&1 | grep -v 'no test files'", os.path.join(wt, "dnsrocks", "go-cdb-mods"), timeout=600, env=env)
-            if "FAIL" in out:
-                ok = False
-                log += "\n" + out[-800:]
             res["suite_passes_with_patch"] = ok
-            res["suite_tail"] = log[-2500:]
+            res["suite_failures"] = f2[:10]
+            res["suite_tail"] = log[-3000:]
             sh("git checkout dnsrocks/go.mod", wt)
         # run the checks
         res["checks"] = {}
